@@ -22,7 +22,7 @@ RULE = ('a case is a batch (1-4 sentences x 1-3 n-best trees; licensed derivatio
         'with >= 2 leaves.')
 ASSUMPTIONS = ['"logic punctuation" = the characters the normaliser exists to remove: . , ( ) ! - (and a lone & or -)',
                'labels are compared only where the file/grammar determine them (see rule)']
-REQUIRED_MONITORS = {'read_xml:trees': 150, 'read_jigg_xml:trees': 150, 'jigg:documents-checked': 150,
+REQUIRED_MONITORS = {'read_xml:after-jigg-export': 30, 'read_xml:trees': 150, 'read_jigg_xml:trees': 150, 'jigg:documents-checked': 150,
                      'ccg2lambda:trees-built': 300, 'ccg2lambda:tokens-normalised': 500, 'read_xml:unary-labels-compared': 20}
 
 
@@ -115,7 +115,15 @@ def run(spec, R):
             if lang == 'en':
                 R.case(stable_hash(('xml', wit['batch'])), nontriv)
                 try:
-                    text = to_string(copy.deepcopy(batch), format='xml')
+                    work = copy.deepcopy(batch)
+                    if i % 3 == 1:
+                        # the same result objects were exported to Jigg XML before (a user may ask for both in one process)
+                        try:
+                            to_string(work, format='jigg_xml')
+                            R.count('read_xml:after-jigg-export')
+                        except Exception:
+                            work = copy.deepcopy(batch)
+                    text = to_string(work, format='xml')
                     with open(path, 'w', encoding='utf-8') as f:
                         f.write(text)
                     read = list(read_xml(path))
